@@ -132,6 +132,14 @@ func (e *Env) hasField(t types.Type, name string) bool {
 }
 
 func (e *Env) evalMods(spec *contract.FuncSpec, withRep bool) []modLoc {
+	out := e.evalMods0(spec, withRep)
+	for i := range out {
+		out[i].Class = canon(out[i].Class)
+	}
+	return out
+}
+
+func (e *Env) evalMods0(spec *contract.FuncSpec, withRep bool) []modLoc {
 	var out []modLoc
 	for _, m := range spec.Modifies {
 		out = append(out, e.evalLoc(m, false))
@@ -153,6 +161,7 @@ func (e *Env) evalMods(spec *contract.FuncSpec, withRep bool) []modLoc {
 // allowed builds the condition under which a write to (class, ref, idx) is permitted by the
 // function's own modifies clause, or targets an object allocated during the call.
 func (x *Exec) allowed(class string, ref, idx *T) *T {
+	class = canon(class)
 	alts := []*T{term.Le(x.entryAlloc, ref)}
 	for _, m := range x.mods {
 		if !classMatches(class, m.Class) {
@@ -214,6 +223,7 @@ func (x *Exec) checkFrameLoc(st *State, m modLoc, what string, pos token.Pos) {
 // havocClass replaces heap class `class` by a fresh array that agrees with the old one on every
 // pre-existing object the callee's modifies clause does not mention.
 func (x *Exec) havocClass(st *State, old *State, class string, mods []modLoc, allocBefore *T) {
+	class = canon(class)
 	s := x.classSorts[class]
 	if s == nil {
 		if _, ok := st.Heap[class]; !ok {
@@ -271,7 +281,7 @@ func (x *Exec) assignLoc(st *State, m modLoc, v Val) {
 			x.fail("sets: ghost value expected for %s", m.Text)
 		}
 		a := x.heapArr(st, m.Class, m.Ghost)
-		st.Heap[m.Class] = term.Store(a, m.Ref, t)
+		st.Heap[canon(m.Class)] = term.Store(a, m.Ref, t)
 		return
 	}
 	if m.Lo != nil {
@@ -422,11 +432,11 @@ func (x *Exec) checkPost(st *State, vals []Val) {
 		}
 		x.oblige(st, "post", fmt.Sprintf("sets#%s@return#%d", clauseLabel(s, i), x.retCount), eq, token.NoPos)
 	}
+	x.cover(st, fmt.Sprintf("return#%d", x.retCount), term.True)
 	for i, e := range x.Spec.Ensures {
 		c := env.evalBool(e.E)
 		x.oblige(st, "post", fmt.Sprintf("%s@return#%d", clauseLabel(e, i), x.retCount), c, token.NoPos)
 	}
-	x.cover(st, fmt.Sprintf("return#%d", x.retCount), term.True)
 	if len(st.Locks) > 0 {
 		for l := range st.Locks {
 			x.oblige(st, "lock", "released at return "+l, term.False, token.NoPos)
@@ -449,9 +459,21 @@ func (x *Exec) pureCall(st *State, recv Val, name string, args []Val) Val {
 			}
 		}
 		if sig == nil {
+			// a method of another interface of the module (used after a type assertion in the code)
+			for _, t := range x.P.allNamed {
+				if it2, ok := t.Underlying().(*types.Interface); ok {
+					for i := 0; i < it2.NumMethods(); i++ {
+						if it2.Method(i).Name() == name {
+							sig = it2.Method(i).Type().(*types.Signature)
+						}
+					}
+				}
+			}
+		}
+		if sig == nil {
 			x.fail("pure call: no method %s in %s", name, r.Ty)
 		}
-		key = "pure!" + typeKey(r.Ty) + "." + name
+		key = "pure!iface." + name
 	case VT:
 		ms := x.P.SSA.MethodSets.MethodSet(r.Ty)
 		sel := ms.Lookup(nil, name)
